@@ -876,7 +876,10 @@ impl<'a> World<'a> {
                             return fail(self.focus, self.step, Oracle::Map, "map/get_mut-budget", "get_mut ran out of an unbounded budget");
                         }
                         self.rec.fault("budget_exhausted");
-                        obj.dead = true;
+                        // The allocation is asked for before anything is copied: a refused get_mut leaves the
+                        // generation as it was (unmodified, still usable). Other operations that run out of
+                        // budget half-way (delete_prefix, next) do end the generation, as out-of-energy does.
+                        self.rec.probe("get_mut_refused_generation_kept");
                         Ok(())
                     }
                     1 => {
